@@ -12,20 +12,30 @@ EXTRA = {'C01-foreign-keys-off-after-failed-add': ['C05', 'C06'],
          'C12-ili-cache-ignores-lexicon-scope': ['C04']}
 sel = sys.argv[1:]
 rows = []
-for d in sorted(glob.glob(f'{ROOT}/seeded/*/')):
+
+
+def one(d):
+    rows = []
     name = os.path.basename(d.rstrip('/'))
-    if sel and not any(name.startswith(s) for s in sel):
-        continue
     prop = name.split('-')[0]
     props = [prop] + [p for p in EXTRA.get(name, []) if p != prop]
+    # also the checks that caught it when it was evaluated (meta.json: {'C08@seed1': 'CAUGHT'})
+    try:
+        meta = json.load(open(os.path.join(d, 'meta.json')))
+        for k, v in (meta.get('checks') or {}).items():
+            if v == 'CAUGHT' and k.split('@')[0] not in props:
+                props.append(k.split('@')[0])
+    except (OSError, ValueError):
+        pass
     base = '/dev/shm' if os.path.isdir('/dev/shm') else tempfile.gettempdir()
     work = tempfile.mkdtemp(prefix='wnseedrun-', dir=base)
     copy = os.path.join(work, 'repo')
     try:
         subprocess.check_call(['git', 'clone', '-q', '/repo', copy])
         if subprocess.run(['git', 'apply', os.path.join(d, 'patch.diff')], cwd=copy).returncode:
-            rows.append((name, prop, 'patch does not apply', '', ''))
-            continue
+            rows.append((name, prop, 'patch does not apply to the current tree', '', ''))
+            print(rows[-1], flush=True)
+            return rows
         for p in props:
             t0 = time.time()
             env = dict(os.environ, WN_VERIF_REPO=copy, PYTHONPATH=copy + os.pathsep + ROOT, VERIF_SEED='1')
@@ -36,9 +46,18 @@ for d in sorted(glob.glob(f'{ROOT}/seeded/*/')):
             verdict = {0: 'MISSED', 1: 'CAUGHT', 2: 'HARNESS-ERROR'}.get(c.returncode, str(c.returncode))
             rows.append((name, p, verdict, kind.group(1) if kind else '', f'{time.time()-t0:.0f}s'))
             print(rows[-1], flush=True)
-            shutil.rmtree(f'{ROOT}/replays/{p}', ignore_errors=True)
     finally:
         shutil.rmtree(work, ignore_errors=True)
+    return rows
+
+
+from concurrent.futures import ThreadPoolExecutor
+dirs = [d for d in sorted(glob.glob(f'{ROOT}/seeded/*/'))
+        if not sel or any(os.path.basename(d.rstrip('/')).startswith(s) for s in sel)]
+with ThreadPoolExecutor(max_workers=4) as ex:       # 4 x (4 shards) = the 16 cores
+    for r in ex.map(one, dirs):
+        rows.extend(r)
+shutil.rmtree(f'{ROOT}/replays', ignore_errors=True)
 with open(f'{ROOT}/SEEDED_RESULTS.md', 'w') as fh:
     fh.write(f'# Seeded changes against the checks (quick tier, VERIF_SEED=1), {time.strftime("%Y-%m-%d %H:%M")}\n\n')
     fh.write('| seeded change | check | result | first discrepancy kind | time |\n|---|---|---|---|---|\n')
